@@ -228,3 +228,88 @@ Theorem C19_hypotheses_satisfiable :
    set_on_case (fst (arun 2 auth_hist)) None 1 op_post = AuthBy 8).
 Proof. split; [exact hist_two_now | exact auth_example]. Qed.
 Print Assumptions C19_hypotheses_satisfiable.
+
+(* ---------- registrations (not functions): one function object registered several times ---------- *)
+(* the ledger - one entry per accepted registration, computed from the specification state only, unregister(f) removes
+   the entries of f on that dispatcher - lists exactly what HookDispatcher._hooks holds under every name, in order *)
+Theorem C19_ledger_is_hooks : forall scopes closures ops di n,
+  all_by_name (fst (run scopes closures ops)) di n = map e_fn (filter (entry_on di n) (ledger scopes closures ops)).
+Proof. exact ledger_is_hooks. Qed.
+Print Assumptions C19_ledger_is_hooks.
+
+(* THE PROPERTY per registration, for all histories (any number of registrations of one function object, on any
+   dispatchers, in any form, with unregistrations in between): the hooks the code runs under a name on a dispatcher are
+   exactly the registrations there whose OWN chain selects the operation - in the region where every registration under
+   that name carries the chain its function object carries now (entry_current) *)
+Theorem C19_each_registration_own_chain_partial : forall scopes closures ops di n ctx,
+  forallb (entry_current (spec_run closures ops)) (filter (entry_on di n) (ledger scopes closures ops)) = true ->
+  dispatch (fst (run scopes closures ops)) di n ctx
+  = spec_dispatch (spec_run closures ops) (ledger scopes closures ops) di n ctx.
+Proof. exact each_registration_own_chain. Qed.
+Print Assumptions C19_each_registration_own_chain_partial.
+
+(* the same for the strategy transformations of one container *)
+Theorem C19_each_registration_own_chain_container_partial : forall scopes closures ops di t ctx,
+  (forall k, forallb (entry_current (spec_run closures ops))
+                     (filter (entry_on di (NGen k t)) (ledger scopes closures ops)) = true) ->
+  apply_to_container (fst (run scopes closures ops)) di t ctx
+  = spec_apply_to_container (spec_run closures ops) (ledger scopes closures ops) di t ctx.
+Proof. exact each_registration_own_chain_container. Qed.
+Print Assumptions C19_each_registration_own_chain_container_partial.
+
+(* one registration at a time *)
+Theorem C19_current_registration_own_chain : forall scopes closures ops e ctx,
+  entry_current (spec_run closures ops) e = true ->
+  should_skip (fst (run scopes closures ops)) (e_fn e) ctx = negb (entry_selects (spec_run closures ops) e ctx).
+Proof. exact current_entry_own_chain. Qed.
+Print Assumptions C19_current_registration_own_chain.
+
+(* F5 stated for registrations: outside the region the code deviates in both directions *)
+Theorem C19_each_registration_own_chain_refuted : exists scopes closures ops di n o,
+  dispatch (fst (run scopes closures ops)) di n (Some o)
+  <> spec_dispatch (spec_run closures ops) (ledger scopes closures ops) di n (Some o).
+Proof.
+  exists [Global; Schema], [0; 1], [OFilter 0 true (call_method sGET); ORegFn 0 f_flatmap_headers; ORegFn 1 f_flatmap_headers],
+         0, (NGen KFlatmap THeaders), op_post.
+  exact each_registration_own_chain_refuted_neq.
+Qed.
+Print Assumptions C19_each_registration_own_chain_refuted.
+
+Theorem C19_direct_registration_inherits_refuted : exists scopes closures ops di n o,
+  dispatch (fst (run scopes closures ops)) di n (Some o) = [] /\
+  spec_dispatch (spec_run closures ops) (ledger scopes closures ops) di n (Some o) <> [].
+Proof.
+  exists [Global; Schema], [0; 1], hist_direct, 1, (NGen KFlatmap THeaders), op_post.
+  exact direct_registration_inherits_refuted_neq.
+Qed.
+Print Assumptions C19_direct_registration_inherits_refuted.
+
+(* what F5 does NOT touch: after ANY history (the same function registered before with filters, anywhere, in any form,
+   unregistered or still registered) an UNFILTERED registration expression on a closure with nothing pending makes the
+   function apply everywhere; both decorator forms *)
+Theorem C19_unfiltered_reregistration_applies_everywhere : forall scopes closures pre ri f ctx,
+  closure_clean (spec_run closures pre) ri = true ->
+  should_skip (fst (run scopes closures (pre ++ [ORegFn ri f]))) (h_id f) ctx = false.
+Proof. exact unfiltered_reregistration_function_form. Qed.
+Print Assumptions C19_unfiltered_reregistration_applies_everywhere.
+
+Theorem C19_unfiltered_named_reregistration_applies_everywhere : forall scopes closures pre ri n f ctx,
+  closure_clean (spec_run closures pre) ri = true ->
+  let d := length (s_decs (spec_run closures pre)) in
+  should_skip (fst (run scopes closures (pre ++ [ORegName ri n; ODecApply d f]))) (h_id f) ctx = false.
+Proof. exact unfiltered_reregistration_named_form. Qed.
+Print Assumptions C19_unfiltered_named_reregistration_applies_everywhere.
+
+(* non-vacuity: one function registered with a filter, unregistered, registered again unfiltered on two dispatchers and
+   under a second name - every entry is in the region and the unfiltered registrations fire for POST *)
+Theorem C19_reregistration_satisfiable :
+  let ops := [OFilter 0 true (call_method sGET); ORegFn 0 f_map_query; OUnregister 0 21%N; ORegFn 0 f_map_query;
+              ORegFn 1 f_map_query; ORegName 1 (NGen KMap THeaders); ODecApply 0 f_map_query] in
+  let ss := spec_run [0; 1] ops in
+  let lg := ledger [Global; Schema] [0; 1] ops in
+  map (fun e => (e_disp e, e_fn e, entry_current ss e)) lg = [(0, 21%N, true); (1, 21%N, true); (1, 21%N, true)] /\
+  dispatch (fst (run [Global; Schema] [0; 1] ops)) 0 (NGen KMap TQuery) (Some op_post) = [21%N] /\
+  spec_dispatch ss lg 0 (NGen KMap TQuery) (Some op_post) = [21%N] /\
+  spec_dispatch ss lg 1 (NGen KMap THeaders) (Some op_post) = [21%N].
+Proof. exact reregistration_example. Qed.
+Print Assumptions C19_reregistration_satisfiable.
